@@ -30,9 +30,12 @@ impl<R: Reader> DebugAddr<R> {
     ) -> Result<u64> {
         let input = &mut self.section.clone();
         input.skip(base.0)?;
-        input.skip(R::Offset::from_u64(
-            index.0.into_u64() * u64::from(address_size),
-        )?)?;
+        let offset = index
+            .0
+            .into_u64()
+            .checked_mul(u64::from(address_size))
+            .ok_or(Error::UnsupportedOffset)?;
+        input.skip(R::Offset::from_u64(offset)?)?;
         input.read_address(address_size)
     }
 
